@@ -68,6 +68,7 @@ type run struct {
 	dead     map[int]bool
 	seenIdx  map[string]bool
 	styleOf  map[int]style // raw test tokens: how they signal success / failure
+	tainted  bool          // a genesis round trip changed the indexes: reported once; later book / index breaks of this sequence follow from it
 }
 
 func si(n int) sdkmath.Int { return sdkmath.NewInt(int64(n)) }
@@ -338,7 +339,7 @@ func (r *run) dumpIdxM(op string, monitor bool) string {
 	violate := func(d string) {
 		// a broken index stays broken: report each kind of break once per sequence, at the op that caused it
 		cls := strings.SplitN(d, " after ", 2)[0]
-		if monitor && !r.seenIdx[cls] {
+		if monitor && !r.seenIdx[cls] && !r.tainted {
 			r.seenIdx[cls] = true
 			r.out.Violate(d)
 		}
@@ -480,6 +481,7 @@ func (r *run) dumpIdxM(op string, monitor bool) string {
 // to the right-hand side of I_external: ± the current supply of the alias.
 func (r *run) books(op string, report bool, aliasShift map[string]*big.Int) {
 	ctx := r.ctx()
+	report = report && !r.tainted
 	for _, p := range r.w.S.App.Erc20Keeper.GetAllTokenPairs(ctx) {
 		t := p.GetERC20Contract()
 		if r.dead[r.ctID(t)] {
